@@ -42,6 +42,19 @@ func runC07(t *mon.T, raw json.RawMessage) {
 		b := content.Blocks[r.Intn(len(content.Blocks))]
 		content.Blocks = append(content.Blocks, refcar.Block{Cid: b.Cid, Data: append([]byte("other bytes "), b.Data...)})
 	}
+	// the archive may have been WRITTEN with identity storing (fully-indexed bit set, identity records
+	// in the embedded index) although it is read without the option: how identity keys are answered
+	// depends on the reading options only
+	fullIdx := d.StoreID || (d.Seed>>3)%4 == 0
+	if !d.StoreID && fullIdx {
+		t.Cover("archive-fully-indexed-read-without-the-option")
+	}
+	if !fullIdx && r.Intn(5) == 0 {
+		// an identity CID longer than MaxIndexCidSize: never indexed without the option, so no limit applies
+		i := r.Intn(len(content.Blocks) + 1)
+		content.Blocks = append(content.Blocks[:i], append([]refcar.Block{gen.LongIdentityBlock(r)}, content.Blocks[i:]...)...)
+		t.Cover("input:identity-cid-longer-than-max-index-cid-size")
+	}
 	payload := refcar.EncodeV1(content.Roots, content.NilRoots, content.Blocks)
 	ref, _ := refcar.DecodeV1(payload, false)
 	cfg := lab.Cfg{WholeCID: d.Whole, StoreID: d.StoreID}
@@ -51,10 +64,10 @@ func runC07(t *mon.T, raw json.RawMessage) {
 		cfg.ZeroEOF = true
 		file = append(append([]byte{}, payload...), make([]byte, 1+r.Intn(64))...)
 	case "v2-mh":
-		file = refcar.EncodeV2(payload, refcar.V2Opts{FullyIndexed: d.StoreID, Index: refcar.BuildIndex(refcar.CodecMhIndexSorted, refcar.ExpectedIndexRecords(ref, refcar.CodecMhIndexSorted, d.StoreID))})
+		file = refcar.EncodeV2(payload, refcar.V2Opts{FullyIndexed: fullIdx, Index: refcar.BuildIndex(refcar.CodecMhIndexSorted, refcar.ExpectedIndexRecords(ref, refcar.CodecMhIndexSorted, fullIdx))})
 	case "v2-sorted-pad":
-		file = refcar.EncodeV2(payload, refcar.V2Opts{FullyIndexed: d.StoreID, DataPadding: uint64(1 + r.Intn(500)), IndexPadding: uint64(r.Intn(64)),
-			Index: refcar.BuildIndex(refcar.CodecIndexSorted, refcar.ExpectedIndexRecords(ref, refcar.CodecIndexSorted, d.StoreID))})
+		file = refcar.EncodeV2(payload, refcar.V2Opts{FullyIndexed: fullIdx, DataPadding: uint64(1 + r.Intn(500)), IndexPadding: uint64(r.Intn(64)),
+			Index: refcar.BuildIndex(refcar.CodecIndexSorted, refcar.ExpectedIndexRecords(ref, refcar.CodecIndexSorted, fullIdx))})
 	case "v2-indexless":
 		file = refcar.EncodeV2(payload, refcar.V2Opts{DataPadding: uint64(r.Intn(4))})
 	}
@@ -224,6 +237,54 @@ func runC07(t *mon.T, raw json.RawMessage) {
 			}
 		}
 	}
+	// ---- a backing whose bytes of ONE section cannot be read (I/O error), opened through an index
+	// that needs no scan: a lookup of a key only that section carries must fail with an error —
+	// neither "absent" nor bytes
+	if (d.Supplied != "" || d.Container == "v2-mh" || d.Container == "v2-sorted-pad") && len(ref.Sections) > 0 {
+		if a, derr := refcar.Decode(file, false); derr == nil {
+			si := int(uint64(d.Seed>>8) % uint64(len(ref.Sections)))
+			sec := ref.Sections[si]
+			carriers := 0
+			for _, o := range ref.Sections {
+				if lab.FlatKey(o.Cid.Raw, false) == lab.FlatKey(sec.Cid.Raw, false) {
+					carriers++
+				}
+			}
+			if _, implied := m.Lookup(sec.Cid.Raw); !implied && carriers == 1 {
+				lo := int64(a.PayloadOff + sec.Offset)
+				hi := int64(a.PayloadOff + sec.End)
+				if hi == lo+int64(sec.LenSize)+int64(len(sec.Cid.Raw)) {
+					hi++ // empty data: break one byte more so that the window is never empty past the CID
+				}
+				ro, err := blockstore.NewReadOnly(&lab.FailSrc{R: bytes.NewReader(file), N: lo, Hi: hi}, supplied, opts...)
+				if err == nil {
+					k, _ := lab.TryCid(sec.Cid.Raw)
+					has, herr := ro.Has(bg, k)
+					b, gerr := ro.Get(bg, k)
+					n, serr := ro.GetSize(bg, k)
+					t.Events(3)
+					det := map[string]any{"cid": lab.Hex(sec.Cid.Raw), "unreadable": []int64{lo, hi}}
+					if herr == nil && !has {
+						t.ViolateD("blockstore.ReadOnly/unreadable-section/Has-reports-absent", det, "Has(%x) = false, nil although the section carrying it exists and merely cannot be read", sec.Cid.Raw)
+					}
+					if gerr == nil && !bytes.Equal(b.RawData(), sec.Data) {
+						t.ViolateD("blockstore.ReadOnly/unreadable-section/Get-returns-wrong-bytes", det, "Get(%x) returned %d bytes that are not the section's", sec.Cid.Raw, len(b.RawData()))
+					} else if isNotFound(gerr) {
+						t.ViolateD("blockstore.ReadOnly/unreadable-section/Get-reports-absent", det, "Get(%x) = not found although the section exists and merely cannot be read", sec.Cid.Raw)
+					}
+					if serr == nil && n != len(sec.Data) {
+						t.ViolateD("blockstore.ReadOnly/unreadable-section/GetSize-wrong", det, "GetSize(%x) = %d, the section holds %d bytes", sec.Cid.Raw, n, len(sec.Data))
+					} else if isNotFound(serr) {
+						t.ViolateD("blockstore.ReadOnly/unreadable-section/GetSize-reports-absent", det, "GetSize(%x) = not found although the section exists", sec.Cid.Raw)
+					}
+					if gerr != nil {
+						t.Cover("unreadable-section:get-failed-with-error")
+					}
+					t.Cover("unreadable-section-probes")
+				}
+			}
+		}
+	}
 	// ---- storage.OpenReadable (cannot take a supplied index)
 	if d.Supplied == "" {
 		name := "storage.OpenReadable"
@@ -304,7 +365,7 @@ func init() {
 		Assumptions: []string{"reference scan (refcar) is the model", "GetSize of an absent identity CID with StoreIdentityCIDs on: a size or a not-found answer are both accepted (the block is implied by its CID)"},
 		Gen:         genC07,
 		Run:         runC07,
-		MinCover: map[string]int{"container:v1": 20, "container:v1-nullpad": 20, "container:v2-mh": 20, "container:v2-sorted-pad": 20, "container:v2-indexless": 20,
+		MinCover: map[string]int{"unreadable-section-probes": 100, "archive-fully-indexed-read-without-the-option": 50, "input:identity-cid-longer-than-max-index-cid-size": 50, "container:v1": 20, "container:v1-nullpad": 20, "container:v2-mh": 20, "container:v2-sorted-pad": 20, "container:v2-indexless": 20,
 			"supplied:lib-sorted": 5, "supplied:ref-mh": 5, "api:blockstore.OpenReadOnly": 50, "api:storage.OpenReadable": 50},
 	})
 }
